@@ -99,5 +99,13 @@ func TestC11(t *testing.T) {
 		r.Case(mode+key+variant, len(kinds) >= 2 && variant != canonText, classes...)
 		r.Sample(map[string]any{"mode": mode, "key": key, "canonical": canonText, "variant": variant})
 		r.Check(t, checkC11(c), "c11", c)
+		if len(sent) >= 2 && coin(t, "megabyte-of-remarks", 1) && rapid.Bool().Draw(t, "megabyte-really") {
+			// more than 1 MiB of comment lines between two chords: still the same piece (no size limit is documented)
+			k := rapid.IntRange(1, len(sent)-1).Draw(t, "remarks-at")
+			block := strings.Repeat("; remark about the next bar, nothing a parser reads\n", 21000+rapid.IntRange(0, 3000).Draw(t, "remark-lines"))
+			hc := C11Case{Mode: mode, Key: key, Canon: canonText, Variant: Render(sent[:k], canonStyle{}) + "\n" + block + Render(sent[k:], canonStyle{}), Edits: "comment "}
+			r.Case(fmt.Sprintf("huge%s%s%d:%d:%s", mode, key, k, len(block), canonText), true, "mode:"+mode, "edit:comment", "variant>1MiB")
+			r.Check(t, checkC11(hc), "c11", hc)
+		}
 	})
 }
